@@ -331,30 +331,28 @@ theorem C14_roundtrip_request_on (B : Backend) (cfg : Config) (conv unconv : PyV
   exact C14_roundtrip B cfg conv unconv fresh (.val p) (.str m) rpcid version false isNotify d
     (by rw [hdump]; exact hd) hwf (fun _ => ⟨T, hpl⟩)
 
-/-- `Fault.dump(rpcid=…, version=…)` / `Fault.response(rpcid=…, version=…)`: the version argument selects the form as
-    for `dump`; the forced id replaces the id the Fault was built with **only when it is truthy** — `if rpcid:` in the
-    source: a forced `0`, `0.0`, `""`, `False` (and `None`) is ignored and the construction id is kept — and it is
-    stored on the Fault (a later `dump()` uses it). -/
+/-- Fault.dump(rpcid=…, version=…): a forced id that is not None replaces the Fault's own id (and is stored on
+    the Fault: a later dump() uses it); None keeps it. -/
 theorem C14_fault_dump_forced (cfg : Config) (f : Fault) (rpcid : PyVal) (version : VerArg) :
-    (rpcid.truthy = true →
+    (rpcid ≠ .none →
       faultDumpWith cfg f rpcid version =
         (error (resolveVersion cfg version) rpcid f.code f.message f.data, { f with rpcid := rpcid })) ∧
-    (rpcid.truthy = false →
-      faultDumpWith cfg f rpcid version =
-        (error (resolveVersion cfg version) f.rpcid f.code f.message f.data, f)) ∧
+    faultDumpWith cfg f .none version =
+        (error (resolveVersion cfg version) f.rpcid f.code f.message f.data, f) ∧
     faultDumpWith cfg f .none .none = (faultDump cfg f, f) := by
   refine ⟨?_, ?_, ?_⟩
-  · intro h; simp [faultDumpWith, h]
-  · intro h; simp [faultDumpWith, h]
-  · simp [faultDumpWith, faultDump, truthy, resolveVersion]
+  · intro h; cases rpcid <;> simp_all [faultDumpWith]
+  · simp [faultDumpWith]
+  · simp [faultDumpWith, faultDump, resolveVersion]
 
-/-- The ids a forced-id call ignores, explicitly: `0`, `0.0`, `""`, `False`, `None`, `[]`, `{}`. -/
+/-- Falsy forced ids are applied like any other: 0, 0.0, "", False, [], {} replace the Fault's own id
+    (only None means "not forced"). -/
 theorem C14_fault_dump_forced_falsy (cfg : Config) (f : Fault) (version : VerArg) :
-    ∀ rid ∈ [PyVal.int 0, .float ⟨false, 0, 0⟩, .str "", .bool false, .none, .list [], .dict []],
-      (faultDumpWith cfg f rid version).2 = f := by
+    ∀ rid ∈ [PyVal.int 0, .float ⟨false, 0, 0⟩, .str "", .bool false, .list [], .dict []],
+      (faultDumpWith cfg f rid version).2 = { f with rpcid := rid } := by
   intro rid h
   simp only [List.mem_cons, List.mem_nil_iff, or_false] at h
-  rcases h with rfl | rfl | rfl | rfl | rfl | rfl | rfl <;> simp [faultDumpWith, truthy, PyFloat.isZero]
+  rcases h with rfl | rfl | rfl | rfl | rfl | rfl <;> simp [faultDumpWith]
 
 /- Non-vacuity -/
 example : containerParams (.list [.int 1]) = true := by decide
@@ -371,7 +369,7 @@ example : c14Plain (.dict [(.str "id", .int 0), (.str "method", .str "m"), (.str
 example : PlainTransparent (fun v => pure v.normalise) (fun v => pure v) :=
   ⟨fun _ _ _ => rfl, fun _ _ => rfl⟩
 example : (faultDumpWith {} { code := .int 1, message := .str "m", rpcid := .str "built" } (.int 0) (.num 10)).1
-    = .dict [(.str "result", .none), (.str "id", .str "built"),
+    = .dict [(.str "result", .none), (.str "id", .int 0),
              (.str "error", .dict [(.str "code", .int 1), (.str "message", .str "m")])] := by decide +kernel
 example : dump {} (fun v => pure v) "f" (.val (.list [])) (.str "named") (.int 0) .none true false
     = .ok (.dict [(.str "result", .list []), (.str "id", .int 0), (.str "jsonrpc", .str "2.0")]) := by decide +kernel
